@@ -127,6 +127,16 @@ def run(ctx):
                                {"op": "flush", "short": True}] + mid +
                               [{"op": "put", "data": "xyxyy", "ok": what != "grow_fail", "kind": "async"},
                                {"op": "read", "h": 2, "n": 2}]})
+    # every asynchronous flush write fails, as many times as the throttle has slots (2 and 4): afterwards a
+    # save must still get through (a slot leaked per failed write leaves it waiting for ever: deadlock event)
+    for w in (2, 4):
+        steps = []
+        for k in range(w):
+            steps += [{"op": "write", "h": 1, "d": "x"}, {"op": "flush", "short": True},
+                      {"op": "put", "data": "x" * (k + 1), "ok": False, "kind": "async"}]
+        sid += 1
+        scns.append({"id": sid, "mode": "schedule", "bs": 8, "w": w, "nfiles": 1, "second": False, "rseed": ctx.seed,
+                     "steps": steps})
     rscns = []
     nrand = 16 if ctx.thorough else 5
     for i in range(nrand):
@@ -135,7 +145,7 @@ def run(ctx):
         nops = 40 if workers <= 4 else (20 if workers <= 6 else 12)
         if not ctx.thorough:
             nops = 30 if workers <= 3 else 18
-        rscns.append({"id": sid, "mode": "random", "bs": [1, 2, 3, 4][i % 4], "w": [1, 2, 4][i % 3],
+        rscns.append({"id": sid, "mode": "random", "bs": [1, 2, 3, 4][i % 4], "w": [4, 2, 4][i % 3],
                       "rseed": ctx.seed * 7919 + i, "workers": workers, "nops": nops, "failpct": [0, 10, 25][i % 3],
                       "savers": 1 if workers >= 6 else 1 + i % 2})
     # (c) directory schedules: Rename variants replayed exactly (fs-wide mutex held by the driver while the
@@ -145,6 +155,9 @@ def run(ctx):
         sid += 1
         dscns.append({"id": sid, "mode": "dirsched", "bs": 4, "w": 4, "dir": d["steps"], "rseed": ctx.seed,
                       "reps": 40 if ctx.thorough else 6})
+    # Rename against a top-down reader (Readdir of the root stopped inside the root by a lock the driver holds)
+    sid += 1
+    dscns.append({"id": sid, "mode": "lockorder", "bs": 4, "w": 4, "rseed": ctx.seed, "reps": 24 if ctx.thorough else 10})
     scns_all = scns + dscns
     by_id = {s["id"]: s for s in scns_all + rscns}
     ctx.extra["scenarios"] = {"schedules": len(scns), "random_concurrent": len(rscns), "dir_schedules": len(dsched)}
@@ -156,7 +169,7 @@ def run(ctx):
     # RUN (b): random concurrency under the race detector
     ev2, out2 = C08.run_driver(ctx, PKG, ov, "TestVerifC13$", rscns, timeout=2400, race=True)
     traces = vlib.split_traces(ev1) + vlib.split_traces(ev2)
-    traces.sort(key=lambda t: t[0].get("mode") == "dirsched")     # (stable: the directory schedules are judged last)
+    traces.sort(key=lambda t: t[0].get("mode") in ("dirsched", "lockorder"))     # (stable: the directory schedules are judged last)
     stuck = any(e["ev"] in ("deadlock", "panic") for t in traces for e in t)
     unapplied = [t[0].get("unapplied", 0) for t in traces if t[0].get("mode") == "schedule"
                  and not any(e["ev"] in ("deadlock", "panic") for e in t)]
@@ -186,12 +199,21 @@ def run(ctx):
     inapp = [t[0].get("scn") for t in traces if t[0].get("inapplicable")]
     if inapp:
         ctx.drift.append("%d directory schedule(s) could not be replayed: the other call blocked on the filesystem-wide mutex" % len(inapp))
+    deferred = None
+    for t in traces:
+        for i, e in enumerate(t):
+            if e["ev"] == "panic" and not e.get("incode", False) and not t[0].get("crash"):
+                deferred = deferred or ("a panic recovered by the driver was not raised in the code under test (scenario %s: %s at %s)"
+                                        % (t[0].get("scn"), str(e.get("what"))[:200], e.get("at")))
+                del t[i:]
+                break
     events = [e for t in traces for e in t]
     ctx.evaluations = len(traces)
     ctx.extra["events_judged"] = len(events)
     C08.install_classifier(ctx)
     C08.judge_fast(ctx, SD, "CollFSConcTrace", "Judge_CollFSConc_C13.cfg", events, scenario_of=by_id, timeout=3000,
                    max_rejects=8)
+    C08.raise_deferred(ctx, deferred)
     nontrivial = set()
     overlap = 0
     for t in traces:
